@@ -906,6 +906,11 @@ func (e *env) include(nameX, ctxX Expr, at interface{}, rel bool, optional bool)
 		}
 		e.fail("unknown-template", at)
 	}
+	if f.Broken {
+		// the template exists but cannot be used: an error for include and exec, and for includeIfExists too
+		// ("behaves like include when the template exists")
+		e.fail("template-does-not-parse", at)
+	}
 	oCtx, oFile := e.ctx, e.file
 	e.sc = &scope{parent: e.sc, vars: map[string]interface{}{}, blocks: e.table(f.Name, 0)}
 	defer func() {
